@@ -142,6 +142,17 @@ func (c *updater) splitDualCIDR(cidrlist *ConfigValue) (allow, deny []string) {
 	return allow, deny
 }
 
+// UpdateDynamicConfig updates the options, read from the global config, that
+// change how resources are read, like the cross namespace permissions. They
+// need to be in place before any converter starts to read resources.
+func UpdateDynamicConfig(options *convtypes.ConverterOptions, mapper *Mapper) {
+	if options.DynamicConfig == nil {
+		return
+	}
+	c := &updater{options: options, logger: options.Logger}
+	c.buildGlobalDynamic(&globalData{mapper: mapper})
+}
+
 func (c *updater) UpdateGlobalConfig(haproxyConfig haproxy.Config, mapper *Mapper) {
 	d := &globalData{
 		acmeData: haproxyConfig.AcmeData(),
